@@ -374,3 +374,6 @@ def run(rep, tier):
         # the raw copy skips premultiply / divide: it must be taken for the exact identity only
         from . import c12
         rep.call(c12.copy_cond, rep, prog, "C07.copy-cond")
+        from ..engines import row_coverage
+        rep.call(row_coverage.divide_every_chunk, rep, prog, "C07.divide-every-chunk",
+                 {"x86": 6, "x86-rayon": 6, "wasm": 1}.get(cfg, 0))
